@@ -157,6 +157,20 @@ def main():
         V.count(evaluations=len(cases), nontrivial=nontriv, traces=len(cases))
         V.notes[f'{label}_selection_order_drift'] = drift_sel[0]
         V.add_sample({'run': label, 'job': {k: jobs[len(jobs) // 2][k] for k in ('columns', 'frame', 'args')}, 'real': got[len(jobs) // 2].get('ok') if got[len(jobs) // 2] else None})
+    # ---- many distinct joint values: the feature must separate all of them (only 64-bit hash collisions are allowed;
+    # at 3*10^5 tuples a 64-bit collision has probability ~2.5e-9, a 32-bit digest collides ~10 times)
+    rows_l = 300000 if tier == 'quick' else 700000
+    lj = [{'op': 'combined_large', 'rows': rows_l, 'seed': seed * 7 + k_, 'args': {'interaction_order': o_, 'label_column': 'label', 'combination_number_upper_bound': 10 ** 6}}
+          for k_, o_ in enumerate((2,) if tier == 'quick' else (2, 3))]
+    for job, r in zip(lj, PC.pipe_eval(lj)):
+        key = f'large-frame rows={job["rows"]} order={job["args"]["interaction_order"]} seed={job["seed"]}'
+        if r is None or 'ok' not in r:
+            V.violation('raises:' + key, f'compute_combined_features failed: {PC.failure_text(r)}', job)
+            continue
+        for c, (nv, nt) in r['ok'].items():
+            if nv != nt:
+                V.violation(f'kernel:{key} feature={c}', f'{nt} distinct value tuples but {nv} distinct values of the interaction feature: rows that differ on a constituent share a value', job)
+        V.count(evaluations=len(r['ok']), nontrivial=len(r['ok']), traces=1)
     V.coverage['exhaustive'] = True
     return V.finish()
 
